@@ -46,6 +46,8 @@ SPACE = {9, 10, 11, 12, 13, 32}
 CTYPE_FALSE_AT_0 = {'isalpha', 'isdigit', 'isalnum', 'isspace', 'isblank', 'isprint', 'isgraph', 'ispunct',
                     'isupper', 'islower', 'isxdigit'}
 CTYPE_NONSPACE = {'isalpha', 'isdigit', 'isalnum', 'isgraph', 'ispunct', 'isupper', 'islower', 'isxdigit'}
+DELIMS = {ord(x) for x in '>/=?"\''}
+WS4 = {9, 10, 13, 32}
 CURSOR_TYPES = {'char *', 'char *&', 'const char *', 'const char *&', 'char *const', 'const char *const'}
 CHAR_TYPES = {'char', 'const char'}
 XML_FILE = 'rkcommon/xml/XML.cpp'
@@ -66,6 +68,14 @@ class Engine:
         self.summaries = 0
         self.steps = 0
         self.pred_cache = {}
+        self.delims = {}        # (fn id, node id, delimiter byte) -> {whitespace excluded?}
+        self.cur_fn = None
+
+    def delim_site(self, f, node, c, st, v, kind='cmp'):
+        """remember whether the byte compared with the structural delimiter c is known not to be one of the parser's whitespace bytes"""
+        K, A, N0, B1, NE = st[('c', v)]
+        tol = bool(N0) or WS4 <= set(NE)
+        self.delims.setdefault((f['id'], node['id'], c, kind), set()).add(tol)
 
     # ------------------------------------------------------------------ classification of variables
     def var_kind(self, ct):
@@ -102,6 +112,16 @@ class Engine:
                 if cv is None:
                     return (v, None)
                 return (v, int(cv))
+        if k == 'DeclRefExpr':
+            # a const char local initialised from `*s` / `s[j]` stands for that byte as long as the cursor is not moved in this function
+            d = tu.node(e.get('referencedDecl', {}).get('id'))
+            if d is not None and d.get('kind') == 'VarDecl' and tu.kids(d) and d.get('type', {}).get('qualType', '') in ('const char',):
+                r = self.read_of(tu.kids(d)[-1], st)
+                if r is not None:
+                    fn = tu.enclosing_fn(d)
+                    f = self.tu.functions.get(fn['id']) if fn else None
+                    if f is not None and not self.param_written(f, r[0]):
+                        return r
         return None
 
     def const_of(self, e):
@@ -186,6 +206,8 @@ class Engine:
                 c &= 0xff
                 eq = None
                 r0 = self.read_of(L, st)
+                if r0 is not None and r0[1] == 0 and c in DELIMS and self.cur_fn is not None:
+                    self.delim_site(self.cur_fn, e, c, st, r0[0])
                 if r0 is not None and r0[1] == 0 and c in st[('c', r0[0])][4]:
                     eq = False
                 if cl == 'Z':
@@ -251,6 +273,35 @@ class Engine:
             ok = bool(outs) and all(ret is False for (_, ret, _) in outs)
         self.pred_cache[f['id']] = ok
         return ok
+
+    def pred_true_set(self, f):
+        """set of bytes for which a user predicate `bool p(char c) { return c == k1 || c == k2 ...; }` is true, else None"""
+        key = ('trueset', f['id'])
+        if key in self.pred_cache:
+            return self.pred_cache[key]
+        tu = self.tu
+        res = None
+        ps = f.get('params', [])
+        body = tu.body(f)
+        if len(ps) == 1 and self.var_kind(ps[0]['ct']) == 'chr' and body is not None:
+            ks = tu.kids(body)
+            if len(ks) == 1 and ks[0].get('kind') == 'ReturnStmt' and tu.kids(ks[0]):
+                acc = set()
+
+                def disj(x):
+                    x = tu.strip(x, casts=True)
+                    if x.get('kind') == 'BinaryOperator' and x.get('opcode') == '||':
+                        return all(disj(y) for y in tu.kids(x))
+                    if x.get('kind') == 'BinaryOperator' and x.get('opcode') == '==':
+                        for L, R in (tu.kids(x), tu.kids(x)[::-1]):
+                            if tu.ref_decl(L) == ps[0]['id'] and self.const_of(R) is not None:
+                                acc.add(self.const_of(R) & 0xff)
+                                return True
+                    return False
+                if disj(tu.kids(ks[0])[0]):
+                    res = frozenset(acc)
+        self.pred_cache[key] = res
+        return res
 
     def assume(self, e, t, st, depth=0):
         tu = self.tu
@@ -319,6 +370,15 @@ class Engine:
         if k == 'CallExpr':
             q = tu.sd(e).get('q', '')
             args = tu.call_parts(e)[2]
+            if args and not t:
+                r = self.read_of(args[0], st)
+                cf = tu.callee_fn(e)
+                if r is not None and cf is not None:
+                    ts = self.pred_true_set(cf)
+                    if ts:
+                        for c in sorted(ts):       # the predicate is false: the byte is none of the bytes it accepts
+                            st = self.learn_not(st, r, c)
+                return st
             if args and t:
                 r = self.read_of(args[0], st)
                 if r is not None:
@@ -432,6 +492,7 @@ class Engine:
 
         def transfer(blk, i, el, s):
             eng.steps += 1
+            eng.cur_fn = f
             if el[0] != 'S':
                 return [s]
             n = tu.node(el[1])
@@ -503,6 +564,30 @@ class Engine:
                             cases.append((eng.assume(cnd, t, dict(st)), eng.const_of(arm)))
                     else:
                         cases.append((st, eng.const_of(ks[1])))
+                    span = None
+                    if rhs is not None and rhs.get('kind') == 'CallExpr' and n.get('opcode') == '+=':
+                        q = tu.sd(rhs).get('q', '').split('::')[-1]
+                        args = tu.call_parts(rhs)[2]
+                        if q in ('strspn', 'strcspn') and len(args) == 2 and eng.decl_of(args[0])[0] == v:
+                            lit = tu.strip(args[1], casts=True)
+                            if lit is not None and lit.get('kind') == 'StringLiteral':
+                                try:
+                                    import ast as pyast
+                                    span = (q, tuple(sorted(set(ord(ch) for ch in pyast.literal_eval(lit.get('value', '""'))))))
+                                except Exception:
+                                    span = None
+                    if span is not None:
+                        # s += strspn(s, set): skips bytes of the set and stops at the first other byte (the NUL is never in the set);
+                        # s += strcspn(s, set): stops at the NUL or at the first byte of the set.  Neither passes the terminator.
+                        st2 = dict(st)
+                        K, A, N0, B1, NE = st2[('c', v)]
+                        if span[0] == 'strspn':
+                            st2[('c', v)] = (0, 1 if A else 0, 0, 0, tuple(sorted(set(span[1]) - {0})))
+                        else:
+                            st2[('c', v)] = (0, 1 if (A or N0) else 0, 0, 0, ())
+                        eng.le_forward(st2, v)
+                        st2['$vals'] = ()
+                        return [fz(st2)]
                     res = []
                     for st2, c in cases:
                         st2 = dict(st2)
@@ -639,6 +724,31 @@ class Engine:
         except Exception:
             return max(len(v) - 2, 0)
 
+    def param_written(self, fn, pid):
+        """the callee assigns / increments its by-value cursor parameter, takes its address or binds it to a non-const reference"""
+        key = (fn['id'], pid)
+        if key not in self.pred_cache:
+            tu = self.tu
+            w = False
+            for x in tu.walk(tu.body(fn)):
+                k = x.get('kind')
+                if k == 'UnaryOperator' and x.get('opcode') in ('++', '--', '&') and tu.ref_decl(tu.kids(x)[0]) == pid:
+                    w = True
+                elif k in ('BinaryOperator', 'CompoundAssignOperator') and x.get('opcode') in ('=', '+=', '-=') and tu.ref_decl(tu.kids(x)[0]) == pid:
+                    w = True
+                elif k in ('CallExpr', 'CXXMemberCallExpr', 'CXXOperatorCallExpr', 'CXXConstructExpr'):
+                    cf2 = tu.callee_fn(x)
+                    args = tu.call_parts(x)[2]
+                    for i, a in enumerate(args):
+                        if tu.ref_decl(a) == pid:
+                            pct = cf2['params'][i]['ct'] if cf2 is not None and i < len(cf2.get('params', [])) else ''
+                            if pct.endswith('&') and not pct.startswith('const') and '*const' not in pct.replace(' ', ''):
+                                w = True
+                if w:
+                    break
+            self.pred_cache[key] = w
+        return self.pred_cache[key]
+
     def do_call(self, f, n, st, moved):
         tu = self.tu
         cf = tu.callee_fn(n)
@@ -653,6 +763,7 @@ class Engine:
         ps = cf.get('params', [])
         entry = {}
         bind = {}
+        bind_val = {}
         relevant = False
         for p, a in zip(ps, args):
             kind = self.var_kind(p['ct'])
@@ -663,17 +774,39 @@ class Engine:
                     entry[('c', p['id'])] = st[('c', v)]
                     if p['ct'].endswith('&'):
                         bind[p['id']] = v
+                    elif not self.param_written(cf, p['id']):
+                        # a cursor passed by value that the callee never moves still denotes the caller's position when the callee
+                        # returns: what the callee learned about the bytes there (e.g. an expect() that returns only on a match) holds
+                        bind_val[p['id']] = v
                     relevant = True
                 else:
                     lit = tu.strip(a, casts=True)
                     if lit is not None and lit.get('kind') == 'StringLiteral':
                         entry[('c', p['id'])] = (min(self.strlen(lit), CAP), 0, 0, 0, ())
+                        try:
+                            import ast as pyast
+                            first = pyast.literal_eval(lit.get('value', '""'))[:1]
+                        except Exception:
+                            first = ''
+                        if first and ord(first) in DELIMS:
+                            for a2 in args:
+                                v2, _ = self.decl_of(a2)
+                                if v2 is not None and ('c', v2) in st:
+                                    self.delim_site(f, n, ord(first), st, v2, 'lit')
+                                    break
                     else:
                         entry[('c', p['id'])] = (0, 0, 0, 0, ())
                     relevant = True
             elif kind == 'chr':
                 entry[('h', p['id'])] = self.char_class_of(a, st)
                 relevant = True
+                c = self.const_of(a)
+                if c is not None and (c & 0xff) in DELIMS:
+                    for a2 in args:
+                        v2, _ = self.decl_of(a2)
+                        if v2 is not None and ('c', v2) in st:
+                            self.delim_site(f, n, c & 0xff, st, v2, 'call')
+                            break
         if not relevant:
             return [fz(st)]
         argvar = {}
@@ -694,6 +827,8 @@ class Engine:
             for key, val in exd.items():
                 if isinstance(key, tuple) and key[0] == 'c' and key[1] in bind:
                     s2[('c', bind[key[1]])] = val
+                elif isinstance(key, tuple) and key[0] == 'c' and key[1] in bind_val:
+                    s2[('c', bind_val[key[1]])] = val
             for pid, v in bind.items():
                 # a cursor handed over by reference: the callee moved it forward (and backward if it says so)
                 if adv:
@@ -783,6 +918,7 @@ def check_cursor(ctx, tu):
     ctx.floor(R2, nloops, 8, 'scanning loops in the parser on the pinned tree: 11')
     ctx.extra['c16_summaries'] = eng.summaries
     ctx.extra['c16_transfer_steps'] = eng.steps
+    return eng
 
 
 def check_readxml(ctx, tu):
@@ -1471,17 +1607,342 @@ def check_positive_examples(ctx):
     else:
         ctx.ok('R-C16-6', 'self-check', 'the rules fire on the known-bad examples (barrier, counted) and not on the RAII guard', 'drivers/c16_positive.cpp',
                nontrivial=False)
+    got = []
+    check_local_buffers(ctx, tu, [f for f in tu.functions.values() if f['q'].startswith('rkverif_c16::copy_')], collect=got)
+    verdicts = {}
+    for f, node, v in got:
+        verdicts.setdefault(f['q'].split('::')[-1], set()).add(v)
+    want = {'copy_off_by_one': {'ok', 'bad'}, 'copy_ok': {'ok'}, 'copy_heap_short': {'ok', 'bad'}}
+    if verdicts != want:
+        ctx.broken('R-C16-9 self-check: verdicts on drivers/c16_positive.cpp are %s, expected %s' % (verdicts, want))
 
+
+# ============================================================================================
+#  R-C16-8: whitespace is skipped in front of the delimiters of a tag head / header
+# ============================================================================================
+# (function, delimiter, kind of site, mode, what a file looks like that needs it); frozen from the pinned tree, each confirmed by reading
+# XML.cpp: these are the positions where the documented subset allows whitespace before a delimiter.  kind: 'call' = consume/expect with
+# the character, 'cmp' = `*s == c`, 'lit' = consume(s, "c...").  mode 'all': every such site in the function; 'some': at least one.
+WS_OBLIGATIONS = [
+    ('parseProp', '=', 'call', 'all', "<a b = '1'/>"),
+    ('parseProp', '"', 'call', 'all', '<a b= "1"/>'),
+    ('parseProp', "'", 'call', 'all', "<a b= '1'/>"),
+    ('parseNode', '/', 'cmp', 'all', "<a b='1' />"),
+    ('parseNode', '>', 'lit', 'some', "<a b='1' >...</a>"),
+    ('parseHeader', '?', 'lit', 'all', "<?xml version='1.0' ?>"),
+]
+
+
+def check_whitespace_tolerance(ctx, tu, eng):
+    R = 'R-C16-8'
+    ctx.describe(R, 'at the delimiters of a tag head / header (=, opening quote, /, >, ?>) the cursor is known not to stand on a whitespace '
+                    'byte: whitespace allowed there has been skipped on every path (facts of the R-C16-1 abstract interpreter)')
+    sites = {}
+    for (fid, nid, c, kind), tols in eng.delims.items():
+        fn = tu.functions[fid]
+        sites.setdefault((chr(c), kind), []).append((fn['q'].split('::')[-1], nid, tols == {True}))
+    n = 0
+    for fname, d, kind, mode, example in WS_OBLIGATIONS:
+        n += 1
+        inst = '%s: %s before `%s`' % (fname, {'call': 'consume/expect', 'cmp': 'test', 'lit': 'literal consume'}[kind], d)
+        here = [x for x in sites.get((d, kind), []) if x[0] == fname]
+        key = '%s|%s|%s|%s-%s' % (R, XML_FILE, fname, kind, {'=': 'eq', '"': 'dquote', "'": 'squote', '/': 'slash', '>': 'gt', '?': 'qmark'}[d])
+        if here:
+            tol = [x for x in here if x[2]]
+            bad = [x for x in here if not x[2]]
+            if (mode == 'all' and not bad) or (mode == 'some' and tol):
+                ctx.ok(R, inst, '%d site(s), whitespace excluded at %s' % (len(here), 'all of them' if mode == 'all' else 'at least one'), tu.loc(here[0][1]))
+            else:
+                x = bad[0]
+                ctx.violation(R, inst, '`%s` is reached on a path where the cursor may still stand on whitespace: whitespace that the documented '
+                              'subset allows here is not skipped, so a file such as `%s` is rejected or misread' % (
+                                  tu.show(tu.node(x[1]))[:60], example), tu.loc(x[1]), key=key)
+            continue
+        anywhere = [x for k2, v in sites.items() if k2[0] == d for x in v]
+        if any(x[2] for x in anywhere):
+            ctx.ok(R, inst, 'site moved: whitespace excluded before `%s` in %s' % (d, sorted(set(x[0] for x in anywhere if x[2]))), tu.loc(anywhere[0][1]))
+        else:
+            ctx.undecided(R, inst, 'no site that tests `%s` found in %s and none elsewhere with whitespace excluded' % (d, fname), XML_FILE)
+    ctx.floor(R, n, len(WS_OBLIGATIONS), 'whitespace obligations')
+
+
+# ============================================================================================
+#  R-C16-9: writes into buffers the parser allocates itself stay inside them
+# ============================================================================================
+BUF_WRITERS = {'memcpy': (0, 2), 'memmove': (0, 2), 'memset': (0, 2), 'strncpy': (0, 2), '__builtin_memcpy': (0, 2)}
+
+
+class LinExpr:
+    """integer expressions as linear forms {atom: coeff} + const; atoms are canonical renderings of sub-expressions that are not
+    linear (pointer differences, calls); const locals are replaced by their initialisers"""
+
+    def __init__(self, tu):
+        self.tu = tu
+
+    def lin(self, e, depth=0):
+        tu = self.tu
+        e = tu.strip(e, casts=True)
+        if e is None or depth > 20:
+            return None
+        k = e.get('kind')
+        cv = tu.sd(e).get('cv')
+        if cv is not None and k in ('IntegerLiteral', 'UnaryExprOrTypeTraitExpr', 'CharacterLiteral', 'DeclRefExpr', 'ConstantExpr'):
+            return ({}, int(cv))
+        if k == 'IntegerLiteral':
+            return ({}, int(e.get('value')))
+        if k == 'DeclRefExpr':
+            d = tu.node(e.get('referencedDecl', {}).get('id'))
+            if d is not None and d.get('kind') == 'VarDecl' and tu.kids(d) and d.get('type', {}).get('qualType', '').startswith('const ') \
+                    and '*' not in d.get('type', {}).get('qualType', ''):
+                return self.lin(tu.kids(d)[-1], depth + 1)
+            return ({'v:' + str(e['referencedDecl'].get('id')): 1}, 0)
+        if k == 'BinaryOperator' and e.get('opcode') in ('+', '-'):
+            lt = tu.kids(e)[0].get('type', {}).get('qualType', '')
+            a, b = self.lin(tu.kids(e)[0], depth + 1), self.lin(tu.kids(e)[1], depth + 1)
+            ptr = '*' in (tu.sd(tu.strip(tu.kids(e)[0], casts=True)).get('ct') or lt)
+            if ptr and e['opcode'] == '-':
+                # pointer difference: one atom, named by the two pointer variables
+                return ({'pd:' + tu.show(e): 1}, 0)
+            if a is None or b is None:
+                return None
+            sg = 1 if e['opcode'] == '+' else -1
+            d = dict(a[0])
+            for t, c in b[0].items():
+                d[t] = d.get(t, 0) + sg * c
+            return ({t: c for t, c in d.items() if c}, a[1] + sg * b[1])
+        if k == 'BinaryOperator' and e.get('opcode') == '*':
+            a, b = self.lin(tu.kids(e)[0], depth + 1), self.lin(tu.kids(e)[1], depth + 1)
+            if a is not None and b is not None:
+                if not a[0]:
+                    return ({t: c * a[1] for t, c in b[0].items()}, a[1] * b[1])
+                if not b[0]:
+                    return ({t: c * b[1] for t, c in a[0].items()}, a[1] * b[1])
+        return ({'x:' + tu.show(e)[:80]: 1}, 0)
+
+    @staticmethod
+    def sub(a, b):
+        d = dict(a[0])
+        for t, c in b[0].items():
+            d[t] = d.get(t, 0) - c
+        return ({t: c for t, c in d.items() if c}, a[1] - b[1])
+
+
+def check_local_buffers(ctx, tu, fns, R='R-C16-9', collect=None):
+    """For every buffer a function allocates for itself (char a[N]; new char[n]) and every pointer that may hold it: each write through it
+    (p[i] = .., *p = .., memcpy/memset/strncpy(p, .., n)) is inside the buffer: i < size, n <= size, decided from linear forms and the
+    comparisons that guard the path (CFG exploration, path-sensitive in the comparisons and in ?: arms)."""
+    le = LinExpr(tu)
+    ninst = 0
+    for f in fns:
+        g = tu.cfg(f)
+        body = tu.body(f)
+        if g is None or body is None:
+            continue
+        arrays = {}
+        for v in tu.walk(body):
+            if v.get('kind') == 'VarDecl':
+                m = re.match(r'^(?:unsigned |signed |const )*char ?\[(\d+)\]$', v.get('type', {}).get('qualType', ''))
+                if m:
+                    arrays[v['id']] = int(m.group(1))
+        news = [x for x in tu.walk(body) if x.get('kind') == 'CXXNewExpr' and x.get('isArray') and 'char' in x.get('type', {}).get('qualType', '')]
+        if not arrays and not news:
+            continue
+        inst = '%s %s' % (f['q'].replace('rkcommon::', ''), f['fty'])
+
+        def size_of(e, st):
+            """size (linear form) of the buffer an expression denotes, or None"""
+            e = tu.strip(e, casts=True)
+            if e is None:
+                return None
+            k = e.get('kind')
+            if k == 'DeclRefExpr':
+                d = e['referencedDecl'].get('id')
+                if d in arrays:
+                    return ({}, arrays[d])
+                return thaw_lin(dict(st[0]).get(d))
+            if k == 'CXXNewExpr' and e.get('isArray'):
+                ks = tu.kids(e)
+                return le.lin(ks[0]) if ks else None
+            if k == 'ConditionalOperator':
+                truth = dict(st[2]).get(e['id'])
+                if truth is None:
+                    return None
+                return size_of(tu.kids(e)[1 if truth else 2], st)
+            return None
+
+        def freeze_lin(l):
+            return None if l is None else (tuple(sorted(l[0].items())), l[1])
+
+        def thaw_lin(l):
+            return None if l is None else (dict(l[0]), l[1])
+
+        findings = []
+
+        def need(st, size, idx, strict, node, what):
+            """idx < size (strict) or idx <= size on this path?"""
+            if size is None or idx is None:
+                return
+            d = LinExpr.sub(size, idx)          # size - idx
+            slack = 1 if strict else 0
+            if not d[0]:
+                if d[1] >= slack:
+                    findings.append(('ok', node, what))
+                else:
+                    findings.append(('bad', node, '%s: the write ends %d byte(s) beyond the %s-byte buffer' % (what, slack - d[1], _lin_str(size))))
+                return
+            # size - idx = sum(atoms) + c: use the path constraints  (lin <= 0)
+            for cons in st[1]:
+                cl = thaw_lin(cons)
+                # constraint  cl <= 0 ; we need  idx - size + slack <= 0, i.e. (-d) + slack <= 0
+                want = ({t: -c for t, c in d[0].items()}, -d[1] + slack)
+                if want[0] == cl[0]:
+                    if want[1] <= cl[1]:
+                        findings.append(('ok', node, what))
+                    else:
+                        findings.append(('bad', node, '%s: the guard on this path only gives %s <= %d, but the buffer has room for %s up to %d: '
+                                         'at the boundary value the write lands %d byte(s) beyond the buffer' % (
+                                             what, _lin_str((cl[0], 0)), -cl[1], _lin_str((cl[0], 0)), -want[1], want[1] - cl[1])))
+                    return
+            findings.append(('und', node, '%s: cannot relate the index/length %s to the buffer size %s on this path' % (what, _lin_str(idx), _lin_str(size))))
+
+        def transfer(blk, i, el, st):
+            if el[0] != 'S':
+                return [st]
+            n = tu.node(el[1])
+            if n is None:
+                return [st]
+            k = n.get('kind')
+            bufs = dict(st[0])
+            if k == 'DeclStmt':
+                for v in tu.kids(n):
+                    if v.get('kind') == 'VarDecl' and tu.kids(v) and '*' in v.get('type', {}).get('qualType', ''):
+                        sz = size_of(tu.kids(v)[-1], st)
+                        if sz is not None:
+                            bufs[v['id']] = freeze_lin(sz)
+                return [(tuple(sorted(bufs.items())), st[1], st[2])]
+            if k == 'BinaryOperator' and n.get('opcode') == '=':
+                l, r = tu.kids(n)
+                ls = tu.strip(l, casts=True)
+                if ls.get('kind') == 'DeclRefExpr' and '*' in ls.get('type', {}).get('qualType', ''):
+                    sz = size_of(r, st)
+                    d = ls['referencedDecl'].get('id')
+                    if sz is not None:
+                        bufs[d] = freeze_lin(sz)
+                    else:
+                        bufs.pop(d, None)
+                    return [(tuple(sorted(bufs.items())), st[1], st[2])]
+                if ls.get('kind') == 'ArraySubscriptExpr':
+                    base, idx = tu.kids(ls)
+                    sz = size_of(base, st)
+                    if sz is not None:
+                        need(st, sz, le.lin(idx), True, n, '`%s = ...`' % tu.show(ls)[:50])
+                if ls.get('kind') == 'UnaryOperator' and ls.get('opcode') == '*':
+                    sz = size_of(tu.kids(ls)[0], st)
+                    if sz is not None:
+                        need(st, sz, ({}, 0), True, n, '`%s = ...`' % tu.show(ls)[:50])
+                return [st]
+            if k == 'CallExpr':
+                q = tu.sd(n).get('q', '').split('::')[-1]
+                if q in BUF_WRITERS:
+                    args = tu.call_parts(n)[2]
+                    di, ni = BUF_WRITERS[q]
+                    if len(args) > max(di, ni):
+                        sz = size_of(args[di], st)
+                        if sz is not None:
+                            need(st, sz, le.lin(args[ni]), False, n, '`%s`' % tu.show(n)[:60])
+            return [st]
+
+        def refine(blk, si, st):
+            term = tu.node(blk.term) if blk.term else None
+            cond = tu.node(blk.cond) if blk.cond else None
+            truth = (si == 0)
+            cons = set(st[1])
+            ct = dict(st[2])
+            if term is not None and term.get('kind') == 'ConditionalOperator':
+                ct[term['id']] = truth
+            c = tu.strip(cond, casts=True) if cond is not None else None
+            if c is not None and c.get('kind') == 'BinaryOperator' and c.get('opcode') in ('<', '<=', '>', '>='):
+                a, b = le.lin(tu.kids(c)[0]), le.lin(tu.kids(c)[1])
+                if a is not None and b is not None:
+                    op = c['opcode']
+                    if not truth:
+                        op = {'<': '>=', '<=': '>', '>': '<=', '>=': '<'}[op]
+                    # normalise to  L <= 0
+                    if op == '<=':
+                        L = LinExpr.sub(a, b)
+                    elif op == '<':
+                        L = LinExpr.sub(a, b)
+                        L = (L[0], L[1] + 1)
+                    elif op == '>=':
+                        L = LinExpr.sub(b, a)
+                    else:
+                        L = LinExpr.sub(b, a)
+                        L = (L[0], L[1] + 1)
+                    cons.add(freeze_lin(L))
+            return [(st[0], frozenset(cons), tuple(sorted(ct.items())))]
+
+        try:
+            g.explore([((), frozenset(), ())], transfer, refine)
+        except RuntimeError:
+            ctx.undecided(R, inst, 'state explosion', tu.fn_loc(f))
+            continue
+        seen = {}
+        for kind, node, msg in findings:
+            seen.setdefault(node['id'], set()).add((kind, msg))
+        for nid, ks in sorted(seen.items()):
+            ninst += 1
+            node = tu.node(nid)
+            bads = [m for k2, m in ks if k2 == 'bad']
+            unds = [m for k2, m in ks if k2 == 'und']
+            if collect is not None:
+                collect.append((f, node, 'bad' if bads else 'und' if unds else 'ok'))
+                continue
+            if bads:
+                ctx.violation(R, inst, 'write into a local buffer can leave it: %s' % bads[0], tu.loc(node),
+                              key='%s|%s|%s|buffer-overrun' % (R, tu.fn_file(f), inst))
+            elif unds:
+                ctx.undecided(R, inst, unds[0], tu.loc(node))
+            else:
+                ctx.ok(R, '%s @%s' % (inst, tu.loc(node)), sorted(ks)[0][1] + ' stays inside the buffer', tu.loc(node))
+    return ninst
+
+
+def _lin_str(l):
+    def nm(t):
+        return t.split(':', 1)[1] if ':' in t else t
+    parts = ['%s%s' % ('' if c == 1 else '%d*' % c, nm(t)) for t, c in sorted(l[0].items())]
+    if l[1] or not parts:
+        parts.append(str(l[1]))
+    return ' + '.join(parts)
+
+
+def check_buffers(ctx, tu):
+    R = 'R-C16-9'
+    ctx.describe(R, 'every write through a buffer the parser allocates itself (char a[N], new char[n]) stays inside it: index < size, '
+                    'length <= size, from linear forms and the comparisons guarding the path')
+    fs = tu.fns(q='rkcommon::xml::readXML')
+    if len(fs) != 1:
+        ctx.broken('%s: readXML not found' % R)
+        return
+    fns = [f for f in reachable_fns(tu, fs[0]) if tu.fn_file(f).startswith('rkcommon/')]
+    n = check_local_buffers(ctx, tu, fns)
+    if n == 0:
+        # legitimate (e.g. tokens built with std::string(begin, end)); the rule itself is exercised on drivers/c16_positive.cpp on every run
+        ctx.ok(R, 'xml::readXML call graph', 'no write through a self-allocated character buffer in the %d functions reachable from readXML' % len(fns),
+               tu.fn_loc(fs[0]), nontrivial=False)
 
 def run(ctx):
     ctx.assume('the buffer handed to parseXML is NUL-terminated (established by R-C16-3 for readXML)')
     ctx.assume('library character predicates (isalpha, isdigit, isspace) return false for the NUL byte')
     ctx.assume('exceptions thrown by the C++ standard library itself (std::bad_alloc, std::length_error) are outside the check')
     tu = ctx.front.parse(XML_FILE, 'TBB')
-    check_cursor(ctx, tu)
+    eng = check_cursor(ctx, tu)
+    if eng is not None:
+        check_whitespace_tolerance(ctx, tu, eng)
     check_readxml(ctx, tu)
     check_outparams(ctx, tu)
     check_exception_discipline(ctx, tu)
+    check_buffers(ctx, tu)
     check_positive_examples(ctx)
     from rkstatic import selftest
     selftest.run(ctx)
